@@ -17,8 +17,8 @@ from . import boot, lane as lane_mod, plan as plan_mod, shrink
 from .props import PROPS, spec_for
 
 VERIF = boot.VERIF_ROOT
-REPLAYS = os.path.join(VERIF, "replays")
-EVIDENCE = os.path.join(VERIF, "evidence")
+REPLAYS = os.environ.get("DSIM_REPLAY_DIR", os.path.join(VERIF, "replays"))
+EVIDENCE = os.environ.get("DSIM_EVIDENCE_DIR", os.path.join(VERIF, "evidence"))
 
 
 class HarnessError(Exception):
@@ -34,7 +34,9 @@ class Lane:
         self.root = root
         self.counters = {"worker_spawns": 0, "hang_suspects": 0, "hang_unconfirmed": 0}
 
-    def worker(self, engine, hashseed=0):
+    def worker(self, engine, hashseed=None):
+        if hashseed is None:
+            hashseed = int(os.environ.get("DSIM_HASHSEED", "0"))
         key = (engine, hashseed)
         w = self.workers.get(key)
         if w is None:
@@ -48,7 +50,9 @@ class Lane:
             self.counters["worker_spawns"] += 1
         return w
 
-    def fresh(self, engine, hashseed=0):
+    def fresh(self, engine, hashseed=None):
+        if hashseed is None:
+            hashseed = int(os.environ.get("DSIM_HASHSEED", "0"))
         w = self.workers.pop((engine, hashseed), None)
         if w is not None:
             w.stop()
@@ -59,7 +63,7 @@ class Lane:
             w.stop()
         self.workers.clear()
 
-    def run(self, plan, engine="jit", op_timeout=30.0, confirm_timeout=120.0, hashseed=0, confirm=True,
+    def run(self, plan, engine="jit", op_timeout=30.0, confirm_timeout=120.0, hashseed=None, confirm=True,
             line_budget=3000000):
         """Run a plan; wall-clock never decides alone. A timeout is only a suspicion: it is re-examined (a) in the
         interpreted engine under a deterministic line-event budget and, if that does not reproduce it, (b) by a solo
